@@ -174,6 +174,50 @@ func buildFile() *descriptorpb.FileDescriptorProto {
 		}
 	}
 	mapField("mm", i64, kindByName("msg"))
+	// a second enum type and a second message type in every cardinality, so
+	// that values of the same kind but another type can meet (cross-field
+	// assignment of views)
+	U := &descriptorpb.DescriptorProto{Name: proto.String("U"), Field: []*descriptorpb.FieldDescriptorProto{
+		{Name: proto.String("a"), Number: proto.Int32(1), Label: opt, Type: tInt32.Enum()}}}
+	other := func(name string, label *descriptorpb.FieldDescriptorProto_Label, typ descriptorpb.FieldDescriptorProto_Type, tn string) {
+		num++
+		T.Field = append(T.Field, &descriptorpb.FieldDescriptorProto{Name: proto.String(name), Number: proto.Int32(num), Label: label, Type: typ.Enum(), TypeName: proto.String(tn)})
+	}
+	other("f_enum2", opt, tEnum, ".c20.Other")
+	other("r_enum2", rep, tEnum, ".c20.Other")
+	other("f_msg2", opt, tMessage, ".c20.U")
+	other("r_msg2", rep, tMessage, ".c20.U")
+	mapOther := func(name string, typ descriptorpb.FieldDescriptorProto_Type, tn string) {
+		entry := camel(name) + "Entry"
+		T.NestedType = append(T.NestedType, &descriptorpb.DescriptorProto{
+			Name: proto.String(entry),
+			Field: []*descriptorpb.FieldDescriptorProto{
+				{Name: proto.String("key"), Number: proto.Int32(1), Label: opt, Type: str.typ.Enum()},
+				{Name: proto.String("value"), Number: proto.Int32(2), Label: opt, Type: typ.Enum(), TypeName: proto.String(tn)},
+			},
+			Options: &descriptorpb.MessageOptions{MapEntry: proto.Bool(true)},
+		})
+		num++
+		T.Field = append(T.Field, &descriptorpb.FieldDescriptorProto{
+			Name: proto.String(name), Number: proto.Int32(num), Label: rep, Type: tMessage.Enum(), TypeName: proto.String(".c20.T." + entry)})
+	}
+	mapOther("mv_enum2", tEnum, ".c20.Other")
+	mapOther("mv_msg2", tMessage, ".c20.U")
+	// extensions of T: one optional and one repeated extension per kind
+	T.ExtensionRange = []*descriptorpb.DescriptorProto_ExtensionRange{{Start: proto.Int32(1000), End: proto.Int32(2000)}}
+	var exts []*descriptorpb.FieldDescriptorProto
+	xnum := int32(1000)
+	for i := range kinds {
+		k := &kinds[i]
+		for _, c := range []struct {
+			prefix string
+			label  *descriptorpb.FieldDescriptorProto_Label
+		}{{"x_", opt}, {"xr_", rep}} {
+			exts = append(exts, &descriptorpb.FieldDescriptorProto{Name: proto.String(c.prefix + k.name), Number: proto.Int32(xnum), Label: c.label,
+				Type: k.typ.Enum(), TypeName: typeName(k), Extendee: proto.String(".c20.T")})
+			xnum++
+		}
+	}
 	enum := func(name string, vals ...any) *descriptorpb.EnumDescriptorProto {
 		e := &descriptorpb.EnumDescriptorProto{Name: proto.String(name)}
 		for i := 0; i < len(vals); i += 2 {
@@ -185,7 +229,8 @@ func buildFile() *descriptorpb.FileDescriptorProto {
 		Name:        proto.String("c20.proto"),
 		Package:     proto.String("c20"),
 		Syntax:      proto.String("proto2"),
-		MessageType: []*descriptorpb.DescriptorProto{T},
+		MessageType: []*descriptorpb.DescriptorProto{T, U},
+		Extension:   exts,
 		EnumType:    []*descriptorpb.EnumDescriptorProto{enum("E", "E0", 0, "E1", 1, "E5", 5), enum("Other", "O0", 0, "O7", 7)},
 	}
 }
@@ -197,6 +242,8 @@ type env struct {
 	T     starlarkproto.MessageDescriptor
 	E     starlarkproto.EnumDescriptor
 	Other starlarkproto.EnumDescriptor
+	U     starlarkproto.MessageDescriptor
+	S     starlarkproto.FileDescriptor // the file: its attributes are the extension fields
 	pre   starlark.StringDict // predeclared names of every case program
 	help  starlark.StringDict // compiled helper functions for S
 	fopts *syntax.FileOptions
@@ -223,7 +270,10 @@ func getEnv() *env {
 		e.T = starlarkproto.MessageDescriptor{Desc: e.tdesc}
 		e.E = starlarkproto.EnumDescriptor{Desc: ed.(protoreflect.EnumDescriptor)}
 		e.Other = starlarkproto.EnumDescriptor{Desc: od.(protoreflect.EnumDescriptor)}
-		e.pre = starlark.StringDict{"proto": starlarkproto.Module, "T": e.T, "E": e.E, "Other": e.Other}
+		ud, _ := pool.FindDescriptorByName("c20.U")
+		e.U = starlarkproto.MessageDescriptor{Desc: ud.(protoreflect.MessageDescriptor)}
+		e.S = starlarkproto.FileDescriptor{Desc: e.tdesc.ParentFile()}
+		e.pre = starlark.StringDict{"proto": starlarkproto.Module, "T": e.T, "E": e.E, "Other": e.Other, "U": e.U, "S": e.S}
 		e.fopts = &syntax.FileOptions{Set: true, GlobalReassign: true, TopLevelControl: true, While: true}
 		th := e.thread("c20-helpers")
 		g, err := starlark.ExecFileOptions(e.fopts, th, "c20helpers.star", helperSrc, e.pre)
